@@ -4,6 +4,7 @@ import SV.Spec.C06Style
 import SV.Model.C06Headers
 import SV.Spec.C06Session
 import SV.Model.C06Template
+import SV.Model.C06Entries
 open SV SV.Wire SV.Model.C06 SV.Spec.C06
 
 def asBytes (j : Json) : Except String Bytes := asList asNat j
@@ -227,6 +228,11 @@ def handle : Handler := fun op a => do
   | "decode_list" =>
     let d ← asNat (← field a "d")
     return encDVal (decList d (← asText (← field a "w")))
+  | "cell_entries" =>
+    let vt ← decVariant (← field a "vt"); let vm ← decVariant (← field a "vm"); let vs ← decVariant (← field a "vs")
+    let c ← decCell (← field a "cell")
+    return jopt (fun es => Json.arr (es.map fun (k, v) => .arr [jtext k, jtext v]))
+      (cellEntries vt vm vs c (← asText (← field a "name")) (← decVal (← field a "value")))
   | "decode_spread" =>
     let name ← asText (← field a "name")
     let entries ← asPairs asText asText (← field a "entries")
